@@ -215,6 +215,9 @@ pub fn run_c29(rep: &mut Report, ordered: &[Prog], keyed: &[KProg]) {
         }
         let ev = st.evaluations;
         st.sample(|| json!({"program": p.name, "term": p.desc, "executions": ev}));
+        for v in &st.violations {
+            println!("  violation-key: {}", v.key);
+        }
         st
     });
     println!("[C29] ordered programs={} executions={} schedule-dependent raw traces={}", ordered.len(), st.evaluations, st.transitions);
@@ -237,6 +240,9 @@ pub fn run_c29(rep: &mut Report, ordered: &[Prog], keyed: &[KProg]) {
         }
         let ev = st.evaluations;
         st.sample(|| json!({"program": kp.prog.name, "term": kp.prog.desc, "executions": ev}));
+        for v in &st.violations {
+            println!("  violation-key: {}", v.key);
+        }
         st
     });
     println!("[C29] keyed programs={} executions={}", keyed.len(), st.evaluations);
